@@ -80,7 +80,7 @@ def check(run, prog, tier):
            f"the may-answer flag is set in {sorted({fi.qual for fi, e in setters})}")
 
     # ------------------------------------------------------------------ F2 / F3
-    pol = InlineOnly(names=(), props=False, max_depth=0, unroll=2)
+    pol = InlineOnly(names=(), props=False, max_depth=0, unroll=3 if tier == "thorough" else 2)
     eng = engine(prog, pol)
     entp = P(hf, param_at(hf, 0, "entry"))
     addr = P(hf, param_at(hf, 1, "addr"))
